@@ -33,14 +33,24 @@ def _private_copy():
     return d
 
 
-def check_bin(name):
-    """-> {'ok': bool, 'errors': [{'code','message','file','line'}]}"""
-    if name in _cache:
-        return _cache[name]
+def check_bin(name, subst=None):
+    """-> {'ok': bool, 'errors': [{'code','message','file','line'}]}
+    `subst` {identifier: identifier}: crate-private items the witness has to name (to show they cannot be reached) under the names they have in
+    the tree under analysis (a private method may have been renamed — analyzer/rolemap.py)."""
+    ck = (name, tuple(sorted((subst or {}).items())))
+    if ck in _cache:
+        return _cache[ck]
     src = os.path.join(WDIR, 'src', 'bin', name + '.rs')
     if not os.path.exists(src):
         raise AnalysisIncomplete('witness %s missing' % name, name)
     wdir = _private_copy()
+    if subst:
+        with open(src) as f:
+            text = f.read()
+        for old, new in subst.items():
+            text = re.sub(r'\b%s\b' % re.escape(old), new, text)
+        with open(os.path.join(wdir, 'src', 'bin', name + '.rs'), 'w') as f:
+            f.write(text)
     env = dict(os.environ, CARGO_NET_OFFLINE='true', CARGO_TARGET_DIR=os.path.join(V, '.work', 'target-witness'), CARGO_INCREMENTAL='0')
     p = subprocess.run(['cargo', '+nightly', 'check', '--offline', '--bin', name, '--message-format=json'], cwd=wdir, env=env, capture_output=True, text=True)
     errors = []
@@ -67,7 +77,7 @@ def check_bin(name):
     if p.returncode != 0 and not errors:
         raise AnalysisIncomplete('witness build failed without a compiler diagnostic: %s' % p.stderr[-400:], name)
     res = {'ok': p.returncode == 0, 'errors': [e for e in errors if not e['message'].startswith('could not compile') and not e['message'].startswith('aborting due')]}
-    _cache[name] = res
+    _cache[ck] = res
     return res
 
 
@@ -101,15 +111,15 @@ def expect_pass(ctx, rule, name, what, known_tag=None):
     return False
 
 
-def expect_fail(ctx, rule, name, what):
+def expect_fail(ctx, rule, name, what, subst=None):
     """fail_<name> must fail exactly at its marked line with the marked error; twin_<name> must compile."""
     fail, twin = 'fail_' + name, 'twin_' + name
     mk = markers(fail)
     if len(mk) != 1:
         raise AnalysisIncomplete('witness %s must mark exactly one line' % fail, fail)
     (line, tag), = mk.items()
-    r = check_bin(fail)
-    t = check_bin(twin)
+    r = check_bin(fail, subst)
+    t = check_bin(twin, subst)
     ctx.evaluations += 2
     w = 'witnesses/w/src/bin/%s.rs:%d' % (fail, line)
     if not t['ok']:
